@@ -138,10 +138,6 @@ fn shim_vec_usize_zeros(n: usize) -> (r: Vec<usize>)
     ensures r@.len() == n, forall|i: int| 0 <= i < n ==> r@[i] == 0
 { vec![0; n] }
 #[verifier::external_body]
-fn shim_vec_u8_zeros(n: usize) -> (r: Vec<u8>)
-    ensures r@.len() == n, forall|i: int| 0 <= i < n ==> r@[i] == 0u8
-{ vec![0; n] }
-#[verifier::external_body]
 fn shim_resize_u8(v: &mut Vec<u8>, n: usize)
     ensures final(v)@.len() == n
 { v.resize(n, 0_u8) }
